@@ -149,6 +149,11 @@ def safe_parse(json_str):
   except ValueError:
     return {}
 
+def safe_parse_dict(json_str):
+  """Like safe_parse(), but also returns {} for valid JSON that isn't an object."""
+  parsed = safe_parse(json_str)
+  return parsed if isinstance(parsed, dict) else {}
+
 @migration(schema_version=1)
 def migration1(tdset):
   """
@@ -609,7 +614,7 @@ def migration15(tdset):
   sections = list(actions.transpose_bulk_action(tdset.all_tables['_grist_Views_section']))
   fields = list(actions.transpose_bulk_action(tdset.all_tables['_grist_Views_section_field']))
 
-  specs = {s.id: safe_parse(s.filterSpec) for s in sections}
+  specs = {s.id: safe_parse_dict(s.filterSpec) for s in sections}
 
   # Move filter data from sections to fields
   for f in fields:
@@ -655,8 +660,11 @@ def migration16(tdset):
     except Exception:
       return None   # If invalid widgetOptions, skip this column.
 
+    if not isinstance(parsed_options, dict):
+      return None   # Likewise if widgetOptions are valid JSON but not an object.
+
     visible_col_id = parsed_options.pop('visibleCol', None)
-    if not visible_col_id:
+    if not visible_col_id or not isinstance(visible_col_id, str):
       return None
 
     # Find visible_col_id as the column name in the appropriate table.
@@ -949,7 +957,7 @@ def migration29(tdset):
 
   def is_valid_rule(parentId, rule_id):
     # Valid rule should be an existing column,
-    rule_col = columns.get(rule_id)
+    rule_col = columns.get(rule_id) if isinstance(rule_id, int) else None
     # in the same table.
     return rule_col and rule_col.parentId == parentId
 
@@ -1135,7 +1143,7 @@ def migration34(tdset):
     # existing raw section filters to continue appearing in the filter bar, we'll pretend
     # here that raw sections have a filterBar value of True. Note that after this migration
     # it will be possible for raw sections to have unpinned filters.
-    s.id: bool(s.id in raw_section_ids or safe_parse(s.options).get('filterBar', False))
+    s.id: bool(s.id in raw_section_ids or safe_parse_dict(s.options).get('filterBar', False))
     for s in sections
   }
 
@@ -1173,7 +1181,7 @@ def migration35(tdset):
   acl_rule_updates = []
   for acl_rule_rec in acl_rules:
     acl_formula = safe_parse(acl_rule_rec.aclFormulaParsed)
-    if not acl_formula or acl_formula[0] != 'Comment':
+    if not (isinstance(acl_formula, list) and len(acl_formula) >= 3 and acl_formula[0] == 'Comment'):
       continue
 
     acl_rule_updates.append((
@@ -1366,9 +1374,14 @@ def migration45(tdset):
       time_created = content.get('timeCreated')
       time_updated = content.get('timeUpdated')
 
-      # Convert milliseconds to seconds for DateTime columns
-      time_created_values.append(int(time_created / 1000) if time_created is not None else 0)
-      time_updated_values.append(int(time_updated / 1000) if time_updated is not None else 0)
+      # Convert milliseconds to seconds for DateTime columns. Anything but a number counts as unset.
+      def to_seconds(millis):
+        try:
+          return int(millis / 1000)
+        except (TypeError, ValueError, OverflowError):
+          return 0
+      time_created_values.append(to_seconds(time_created))
+      time_updated_values.append(to_seconds(time_updated))
       resolved_values.append(bool(content.get('resolved', False)))
 
       # Remove these fields from JSON content if they exist
